@@ -6,12 +6,12 @@
    THE HYPOTHESIS  cre_inv s  (Mesh/TH3Base.v) = bu_inv s  (Kernel/ExactInv.v: exact caches, stored handles of live entities in range)
                                              /\ faces_loop s        (every live face is a closed loop of halfedges)
                                              /\ face_edges_live s   (the halfedges of live faces are live)
-                                             /\ no_par s            (no two live edges join the same pair of vertices).
+                                             /\ TH3Base.no_par s            (no two live edges join the same pair of vertices).
    The first three hold in every state of the history class of C01 / C08 (C16_hypothesis_from_the_history_invariant: full_inv + faces_closed);
-   no_par is the one extra condition: add_cell(vertices) looks every edge up BY ITS END VERTICES (find_halfedge / add_edge without
+   TH3Base.no_par is the one extra condition: add_cell(vertices) looks every edge up BY ITS END VERTICES (find_halfedge / add_edge without
    duplicates), parallel edges (legal: add_edge(a, b, true)) make a face found on one edge and a face created on the other fall apart.
    Each part is needed (`_refuted` theorems with computed witnesses, replayed on the real library: build/th3/hexv.scripts,
-   build/th3tet/w*.scripts); cre_inv, closed faces and no_par hold again after the call (C16_created_cell_keeps_the_history_invariant).
+   build/th3tet/w*.scripts); cre_inv, closed faces and TH3Base.no_par hold again after the call (C16_created_cell_keeps_the_history_invariant).
 
    1. C16: every cell created by add_cell(eight pairwise distinct vertices), with or without topology check, satisfies hex_cell_wf_b and
       passes check_halfface_ordering (which this form of add_cell never runs): x-front ... z-back convention, cube pattern of
@@ -21,10 +21,15 @@
    2. C15: every cell created by add_cell(vertices) (vector form and four-handle form) from four pairwise distinct vertices is
       tet_cell_ok_b / tet_cell_inc_b / tet_wf: all query theorems apply; get_cell_vertices(cell) = the first face's stored rotation of
       (v0, v1, v2), then v3.
-   3. C15: the topology-CHECKED add_cell(halffaces) on closed triangles with three distinct vertices: accepted cells are NOT always
-      tetrahedra (`_refuted`: two "pillows" on a parallel edge - a library defect, replay build/th3tet/w3.scripts); they are under no_par,
-      or when no two given halffaces have the same vertex set.
-   4. C15: collapse_edge in deferred mode - see section 4 below. *)
+   3. C15: the topology-CHECKED add_cell(halffaces) on closed triangles with three distinct vertices: every accepted cell is a well-formed
+      tetrahedron (since the fix 814053a; before it two "pillows" on four vertices over a parallel edge were accepted - the defect was
+      found by this proof attempt; regression Examples).
+   4. C15: collapse_edge(a -> b) in deferred mode under collapse_ready and link_ok (Mesh/TH3ColMain.v; decidable: link_ok_b) - on the state
+      BEFORE the call: (1) no two live halfedges with the same ends among the image vertex pairs (follows from TH3Base.no_par), (2) every rebuilt
+      tet tet-like (no two halffaces share a directed edge or are mirror images), (3) halffaces of rebuilt tets on pairwise different
+      vertex cycles, (4) THE LINK CONDITION: a live halfface on an image cycle is free or belongs to a cell of the star of a -
+      the result satisfies bu_inv2, szd, gc_ready, Hinv and full_inv again (histories continue; C15_collapse_immediate_slow/_fast hold
+      without their gc_ready hypothesis).  (1) and (4) are needed (`_refuted`, the parallel-edge witness replayed on the library). *)
 From Coq Require Import ZArith List Arith Bool.
 From OVM Require Import Base.ListX Base.ListLemmas Kernel.State Kernel.Ops Kernel.Closure Kernel.ExactInv Kernel2.ExactBase
                         Kernel3.GcDefs Kernel4.AllDefs
@@ -33,13 +38,15 @@ From OVM Require Import Base.ListX Base.ListLemmas Kernel.State Kernel.Ops Kerne
                         Mesh.TH3Base Mesh.TH3HexQuad Mesh.TH3HexCube Mesh.TH3HexMain Mesh.TH3HexVerts Mesh.TH3HexSummary Mesh.TH3HexAccept
                         Mesh.TH3HexHist Mesh.TH3HexEx Mesh.TH3HexBlocks
                         Mesh.TH3TetFound Mesh.TH3TetCell Mesh.TH3TetMain Mesh.TH3TetAccept Mesh.TH3TetChecked Mesh.TH3TetEx
-                        Mesh.TH3TetFourBase Mesh.TH3TetFour Mesh.TH3TetTopo Mesh.TH3TetHist.
+                        Mesh.TH3TetFourBase Mesh.TH3TetFour Mesh.TH3TetTopo Mesh.TH3TetHist
+                        Kernel.Sizes Kernel.ShiftFace Kernel3.GcHist Kernel3.GcFastChain Mesh.TH2CollapseMain Mesh.TH2CollapseStar Mesh.TH2CollapseFinal Mesh.TH2CollapseEx
+                        Mesh.TH3ColBase Mesh.TH3ColLoop Mesh.TH3ColReadd Mesh.TH3ColMain Mesh.TH3ColFinal Mesh.TH3ColBridge.
 Import ListNotations.
 Local Open Scope nat_scope.
 
 (* ================================================================== 0. the hypothesis *)
 
-Theorem C16_hypothesis_from_the_history_invariant : forall s, full_inv s -> faces_closed s -> no_par s -> cre_inv s.
+Theorem C16_hypothesis_from_the_history_invariant : forall s, full_inv s -> faces_closed s -> TH3Base.no_par s -> cre_inv s.
 Proof. exact cre_inv_of_full_inv. Qed.
 Print Assumptions C16_hypothesis_from_the_history_invariant.
 
@@ -47,8 +54,8 @@ Theorem C16_hypothesis_checker_sound : forall s, TH3HexEx.cre_inv_b s = true -> 
 Proof. exact TH3HexEx.cre_inv_b_sound. Qed.
 Print Assumptions C16_hypothesis_checker_sound.
 
-(* under no_par a live halfedge with distinct ends is determined by its ends *)
-Theorem C16_no_parallel_edges_halfedge_by_ends : forall s h h', no_par s -> live_he_p s h -> live_he_p s h' ->
+(* under TH3Base.no_par a live halfedge with distinct ends is determined by its ends *)
+Theorem C16_no_parallel_edges_halfedge_by_ends : forall s h h', TH3Base.no_par s -> live_he_p s h -> live_he_p s h' ->
   he_from s h = he_from s h' -> he_to s h = he_to s h' -> he_from s h <> he_to s h -> h = h'.
 Proof. exact he_unique. Qed.
 Print Assumptions C16_no_parallel_edges_halfedge_by_ends.
@@ -66,7 +73,7 @@ Theorem C16_created_cell_is_well_formed_and_ordered : forall s s' a0 a1 a2 a3 a4
     hf_on s' h3 [a4; a5; a3; a0] /\ hf_on s' h4 [a1; a7; a4; a0] /\ hf_on s' h5 [a2; a3; a5; a6] /\
     (find_halfface_extensive s [a3; a2; a1; a0] = None -> hf_vertices s' h0 = [a3; a2; a1; a0]) /\
     hex_cell_wf_b s' c = true /\ check_halfface_ordering s' [h0; h1; h2; h3; h4; h5] = true /\
-    no_par s' /\ faces_loop s' /\ face_edges_live s'.
+    TH3Base.no_par s' /\ faces_loop s' /\ face_edges_live s'.
 Proof. exact created_cell. Qed.
 Print Assumptions C16_created_cell_is_well_formed_and_ordered.
 
@@ -121,11 +128,11 @@ Print Assumptions C16_checked_add_cell_from_vertices_acceptance.
 (* histories continue: the call is a sequence of operations of the history class of C01 (add_face(vertices) of simple faces, then an
    add_cell whose cell passes the check, on free halffaces); "free" is tested by the call itself when the topology check is on *)
 Theorem C16_created_cell_keeps_the_history_invariant : forall s s' a0 a1 a2 a3 a4 a5 a6 a7 chk c,
-  full_inv s -> faces_closed s -> no_par s -> NoDup [a0; a1; a2; a3; a4; a5; a6; a7] ->
+  full_inv s -> faces_closed s -> TH3Base.no_par s -> NoDup [a0; a1; a2; a3; a4; a5; a6; a7] ->
   (forall v, In v [a0; a1; a2; a3; a4; a5; a6; a7] -> live_v s v = true) ->
   hex_add_cell_v s [a0; a1; a2; a3; a4; a5; a6; a7] chk = (s', Some c) ->
   chk = true \/ (forall hf c', In hf (cell_at s' c) -> c' < c -> c_deleted s' c' = false -> ~ In hf (cell_at s' c')) ->
-  full_inv s' /\ faces_closed s' /\ no_par s'.
+  full_inv s' /\ faces_closed s' /\ TH3Base.no_par s'.
 Proof. exact created_cell_keeps_invariant. Qed.
 Print Assumptions C16_created_cell_keeps_the_history_invariant.
 
@@ -133,7 +140,7 @@ Print Assumptions C16_created_cell_keeps_the_history_invariant.
    vertex lists with valid handles - wrong lengths, repetitions and calls rejected after they added faces included) the kernel's history
    invariant, closed faces and "no parallel edges" hold and EVERY cell is a well-formed, ordered cube in the documented layout *)
 Theorem C16_blocks_built_from_vertices_all_cells_are_cubes : forall ops : list bop, let s := hex_run (map bop_hop ops) in
-  full_inv s /\ faces_closed s /\ no_par s /\ cre_inv s /\ hex_shape s /\
+  full_inv s /\ faces_closed s /\ TH3Base.no_par s /\ cre_inv s /\ hex_shape s /\
   forall c, c < nc s ->
     live_c s c = true /\ hex_cell_wf_b s c = true /\ check_halfface_ordering s (cell_at s c) = true /\
     hex_cube_pattern s c /\ hex_layout s (cell_at s c) = true.
@@ -147,7 +154,7 @@ Proof. split; [reflexivity | vm_compute; reflexivity]. Qed.
 
 (* ---- each part of the hypothesis is needed *)
 
-(* full statement (refuted): C16_created_cell_is_well_formed_and_ordered without no_par - a quad found on the second of two parallel
+(* full statement (refuted): C16_created_cell_is_well_formed_and_ordered without TH3Base.no_par - a quad found on the second of two parallel
    edges, its neighbour created on the first: add_cell(vertices, false) stores a cell that is not closed (the checked form rejects) *)
 Theorem C16_created_cell_with_parallel_edges_refuted :
   exists s vs s' c, bu_inv s /\ faces_loop s /\ face_edges_live s /\ hex_shape s /\ no_par_b s = false /\
@@ -160,7 +167,7 @@ Print Assumptions C16_created_cell_with_parallel_edges_refuted.
 (* ... without faces_loop - two faces added WITHOUT check that are no closed loops but have the right from-vertices (all
    find_halfface_extensive compares) and together the halfedge set of a cube: even the TOPOLOGY-CHECKED add_cell(vertices) accepts *)
 Theorem C16_created_cell_with_open_faces_refuted :
-  exists s vs s' c, bu_inv s /\ faces_loop_b s = false /\ face_edges_live s /\ no_par s /\ hex_shape s /\
+  exists s vs s' c, bu_inv s /\ faces_loop_b s = false /\ face_edges_live s /\ TH3Base.no_par s /\ hex_shape s /\
     NoDup vs /\ (forall v, In v vs -> v < nv s) /\ hex_add_cell_v s vs true = (s', Some c) /\
     cell_check s' (cell_at s' c) = true /\
     hex_cell_wf_b s' c = false /\ check_halfface_ordering s' (cell_at s' c) = false /\ hex_layout s' (cell_at s' c) = false.
@@ -288,11 +295,11 @@ Print Assumptions C15_checked_add_cell_from_vertices_acceptance.
 
 (* histories continue: full_inv, closed faces, no parallel edges and the tet shape hold again after the call (vector form) *)
 Theorem C15_created_tet_keeps_the_history_invariant : forall s v0 v1 v2 v3 chk s' c,
-  full_inv s -> faces_closed s -> no_par s -> tet_shape s -> NoDup [v0; v1; v2; v3] ->
+  full_inv s -> faces_closed s -> TH3Base.no_par s -> tet_shape s -> NoDup [v0; v1; v2; v3] ->
   (forall v, In v [v0; v1; v2; v3] -> live_v s v = true) ->
   tet_add_cell_v s [v0; v1; v2; v3] chk = (s', Some c) ->
   chk = true \/ (forall hf c', In hf (cell_at s' c) -> c' < c -> c_deleted s' c' = false -> ~ In hf (cell_at s' c')) ->
-  full_inv s' /\ faces_closed s' /\ no_par s' /\ tet_shape s'.
+  full_inv s' /\ faces_closed s' /\ TH3Base.no_par s' /\ tet_shape s'.
 Proof. exact tet_created_keeps_invariant. Qed.
 Print Assumptions C15_created_tet_keeps_the_history_invariant.
 
@@ -339,7 +346,7 @@ Proof. exact tet_add_cell_v_wf_without_no_par_refuted. Qed.
 Print Assumptions C15_created_tet_with_parallel_edges_refuted.
 
 Theorem C15_created_tet_with_an_open_face_refuted :
-  exists s v0 v1 v2 v3 s' c, bu_inv s /\ face_edges_live s /\ no_par s /\ tet_shape s /\ NoDup [v0; v1; v2; v3] /\
+  exists s v0 v1 v2 v3 s' c, bu_inv s /\ face_edges_live s /\ TH3Base.no_par s /\ tet_shape s /\ NoDup [v0; v1; v2; v3] /\
     (forall v, In v [v0; v1; v2; v3] -> v < nv s) /\ tet_add_cell_v s [v0; v1; v2; v3] false = (s', Some c) /\
     tet_cell_ok_b s' c = false /\ gcv_c s' c = Some [0; 1; 4; 2] /\ [v0; v1; v2; v3] = [0; 1; 2; 3] /\
     snd (tet_add_cell_v s [v0; v1; v2; v3] true) = None.
@@ -363,7 +370,7 @@ Print Assumptions C15_created_tet_on_a_quad_refuted.
 (* the four-handle form relies on find_halfedge, which finds nothing without vertex incidences: add_halfedge then returns an existing
    edge in the wrong direction *)
 Theorem C15_created_tet_four_handles_without_vertex_incidences_refuted :
-  exists s v0 v1 v2 v3 s' c, vbu s = false /\ faces_loop s /\ face_edges_live s /\ no_par s /\ tet_shape s /\ NoDup [v0; v1; v2; v3] /\
+  exists s v0 v1 v2 v3 s' c, vbu s = false /\ faces_loop s /\ face_edges_live s /\ TH3Base.no_par s /\ tet_shape s /\ NoDup [v0; v1; v2; v3] /\
     (forall v, In v [v0; v1; v2; v3] -> v < nv s) /\ tet_add_cell_4 s v0 v1 v2 v3 false = Some (s', Some c) /\ tet_cell_ok_b s' c = false.
 Proof. exact tet_add_cell_4_wf_without_vbu_refuted. Qed.
 Print Assumptions C15_created_tet_four_handles_without_vertex_incidences_refuted.
@@ -395,37 +402,58 @@ Proof. exact tet_on_rotated_face. Qed.
 
 (* ================================================================== 3. C15: the topology-checked add_cell(halffaces) *)
 
-(* full statement (refuted): every cell accepted by the topology-checked add_cell(halffaces) on closed triangles with three distinct
-   vertices is tet_cell_ok_b.  Two "pillows": hfs = [hf; opp hf; x; opp x], hf on (0,1,2), x on (1,2,3) over a PARALLEL edge 1-2: four
-   halffaces of valence 3, exactly four distinct vertices, every halfedge matched once - accepted by model and library (replay
-   build/th3tet/w3.scripts: the C15 oracle fires, get_cell_vertices has no apex, halfface_opposite_vertex / tv_iter read out of range) *)
-Theorem C15_checked_add_cell_accepts_two_pillows_refuted :
-  exists s hfs s' c, tet_step s (TK (AddCell hfs true)) = TOk s' (Some c) /\ tet_add_cell s hfs true = (s', Some c) /\
-    fbu s = true /\ length (inc_cell s) = 2 * nf s /\ forallb (fun hf => hf <? 2 * nf s) hfs = true /\
-    forallb (tri_ok_b s) hfs = true /\ faces_loop_b s = true /\ face_edges_live_b s = true /\ no_par_b s = false /\
-    hfs = [0; 1; 2; 3] /\ map (hf_vertices s') hfs = [[0; 1; 2]; [0; 2; 1]; [1; 2; 3]; [1; 3; 2]] /\
-    tet_cell_ok_b s' c = false /\ tet_cell_inc_b s' c = true /\
-    gcv_c s' c = Some [] /\ gcv_hf s' 0 = Some [] /\ gcv_hf s' 1 = Some [] /\ gcv_hf s' 2 = Some [1; 2; 3; 0] /\
-    halfface_opposite_vertex s' 0 = None /\ halfface_opposite_vertex s' 2 = Some (Some 0) /\
-    vertex_opposite_halfface s' c 3 = Some (Some 0) /\ tet_iter s' c 1 = None /\ gcv_c_v s' c 1 = None.
-Proof. exact tet_add_cell_checked_ok_refuted. Qed.
-Print Assumptions C15_checked_add_cell_accepts_two_pillows_refuted.
+(* every cell accepted by the topology-checked add_cell(halffaces) on closed triangles with three distinct vertices IS a well-formed
+   tetrahedron - in every state, no hypothesis on edges (since the fix 814053a "checked tet add_cell must reject four triangles on fewer
+   than four vertex triples"; before it this statement was FALSE: two "pillows" [hf; opp hf; x; opp x] on four vertices over a parallel
+   edge were accepted - found here, replayed on the library, build/th3tet/w3.scripts = corpus/tethex/tet-two-pillows-parallel-edge.scripts) *)
+Theorem C15_checked_add_cell_accepted_tet_is_well_formed : forall s hfs s' c, tet_add_cell s hfs true = (s', Some c) ->
+  fbu s = true -> length (inc_cell s) = 2 * nf s -> (forall hf, In hf hfs -> hf < 2 * nf s) ->
+  (forall hf, In hf hfs -> TH2TopoWf.tri_ok s hf) ->
+  c = nc s /\ cell_at s' c = hfs /\ tet_cell_ok s' c hfs /\ tet_cell_ok_b s' c = true /\ tet_cell_inc_b s' c = true /\
+  tet_wf s' c hfs (hfs_vertex_set s' hfs).
+Proof. exact tet_add_cell_checked_ok. Qed.
+Print Assumptions C15_checked_add_cell_accepted_tet_is_well_formed.
 
-(* the same without any (hf, opp hf) pair by handle: duplicate faces *)
-Theorem C15_checked_add_cell_accepts_two_pillows_on_duplicate_faces_refuted :
-  exists s hfs s' c, tet_step s (TK (AddCell hfs true)) = TOk s' (Some c) /\ tet_add_cell s hfs true = (s', Some c) /\
-    fbu s = true /\ length (inc_cell s) = 2 * nf s /\ forallb (fun hf => hf <? 2 * nf s) hfs = true /\
-    forallb (tri_ok_b s) hfs = true /\ forallb (fun hf => negb (memb (opp hf) hfs)) hfs = true /\
-    hfs = [0; 3; 4; 7] /\ map (hf_vertices s') hfs = [[0; 1; 2]; [0; 2; 1]; [1; 2; 3]; [1; 3; 2]] /\
-    tet_cell_ok_b s' c = false /\ tet_cell_inc_b s' c = true /\
-    gcv_c s' c = Some [] /\ halfface_opposite_vertex s' 0 = None /\ tet_iter s' c 1 = None.
-Proof. exact tet_add_cell_checked_ok_dup_refuted. Qed.
-Print Assumptions C15_checked_add_cell_accepts_two_pillows_on_duplicate_faces_refuted.
+(* what the guards of the checked call establish *)
+Theorem C15_checked_add_cell_guards : forall s hfs s' c, tet_add_cell s hfs true = (s', Some c) ->
+  length hfs = 4 /\ (forall hf, In hf hfs -> length (face_at s (hf / 2)) = 3) /\ length (hfs_vertex_set s hfs) = 4 /\ NoDup hfs /\
+  (forall hf hf', In hf hfs -> In hf' hfs -> hf <> hf' ->
+     ~ (incl (hf_vertices s hf) (hf_vertices s hf') /\ incl (hf_vertices s hf') (hf_vertices s hf))) /\
+  add_cell s hfs true = (s', Some c).
+Proof. exact tet_add_cell_checked_guards. Qed.
+Print Assumptions C15_checked_add_cell_guards.
 
+(* regressions: the two former witnesses are rejected, the mesh unchanged (they pass every other test) *)
+Example C15_two_pillows_on_a_parallel_edge_rejected :
+  let s := tet_run pillow_pre in let hfs := [0; 1; 2; 3] in
+  tet_step s (TK (AddCell hfs true)) = TOk s None /\ tet_add_cell s hfs true = (s, None) /\
+  fbu s = true /\ length (inc_cell s) = 2 * nf s /\ forallb (fun hf => hf <? 2 * nf s) hfs = true /\
+  forallb (TH2TopoWf.tri_ok_b s) hfs = true /\ cell_check s hfs = true /\ length (hfs_vertex_set s hfs) = 4 /\
+  hfs_triple_count s hfs = 2 /\ no_par_b s = false.
+Proof. exact tet_two_pillows_rejected. Qed.
+
+Example C15_two_pillows_on_duplicate_faces_rejected :
+  let s := tet_run pillow_dup_pre in let hfs := [0; 3; 4; 7] in
+  tet_step s (TK (AddCell hfs true)) = TOk s None /\ tet_add_cell s hfs true = (s, None) /\
+  forallb (TH2TopoWf.tri_ok_b s) hfs = true /\ forallb (fun hf => negb (memb (opp hf) hfs)) hfs = true /\
+  cell_check s hfs = true /\ length (hfs_vertex_set s hfs) = 4 /\ hfs_triple_count s hfs = 2.
+Proof. exact tet_two_pillows_dup_rejected. Qed.
+
+(* the add_cell WITHOUT topology check still stores the pillows (the queries then have no apex / read out of range) *)
+Theorem C15_unchecked_add_cell_stores_two_pillows :
+  exists s hfs s' c, tet_step s (TK (AddCell hfs false)) = TOk s' (Some c) /\ tet_add_cell s hfs false = (s', Some c) /\
+    forallb (TH2TopoWf.tri_ok_b s) hfs = true /\ hfs = [0; 1; 2; 3] /\ map (hf_vertices s') hfs = [[0; 1; 2]; [0; 2; 1]; [1; 2; 3]; [1; 3; 2]] /\
+    tet_cell_ok_b s' c = false /\ tet_cell_inc_b s' c = true /\
+    gcv_c s' c = Some [] /\ gcv_hf s' 0 = Some [] /\ gcv_hf s' 2 = Some [1; 2; 3; 0] /\
+    halfface_opposite_vertex s' 0 = None /\ tet_iter s' c 1 = None.
+Proof. exact tet_add_cell_unchecked_stores_two_pillows. Qed.
+Print Assumptions C15_unchecked_add_cell_stores_two_pillows.
+
+(* the forms proved before the fix stay true (now corollaries in spirit) *)
 (* true: without parallel edges (and with live halfedges) ... *)
 Theorem C15_checked_add_cell_accepted_tet_is_well_formed_partial : forall s hfs s' c, tet_add_cell s hfs true = (s', Some c) ->
   fbu s = true -> length (inc_cell s) = 2 * nf s -> (forall hf, In hf hfs -> hf < 2 * nf s) ->
-  (forall hf, In hf hfs -> tri_ok s hf) -> no_par s -> (forall hf h, In hf hfs -> In h (halfface s hf) -> live_he_p s h) ->
+  (forall hf, In hf hfs -> TH2TopoWf.tri_ok s hf) -> TH3Base.no_par s -> (forall hf h, In hf hfs -> In h (halfface s hf) -> live_he_p s h) ->
   c = nc s /\ cell_at s' c = hfs /\ tet_cell_ok s' c hfs /\ tet_cell_ok_b s' c = true /\ tet_cell_inc_b s' c = true /\
   tet_wf s' c hfs (hfs_vertex_set s' hfs).
 Proof. exact tet_add_cell_checked_ok_partial. Qed.
@@ -434,7 +462,7 @@ Print Assumptions C15_checked_add_cell_accepted_tet_is_well_formed_partial.
 (* ... or, in every state, when no two of the given halffaces have the same vertex set *)
 Theorem C15_checked_add_cell_accepted_tet_on_different_vertex_sets_partial : forall s hfs s' c, tet_add_cell s hfs true = (s', Some c) ->
   fbu s = true -> length (inc_cell s) = 2 * nf s -> (forall hf, In hf hfs -> hf < 2 * nf s) ->
-  (forall hf, In hf hfs -> tri_ok s hf) ->
+  (forall hf, In hf hfs -> TH2TopoWf.tri_ok s hf) ->
   (forall hf hf', In hf hfs -> In hf' hfs -> hf <> hf' -> ~ incl (hf_vertices s hf') (hf_vertices s hf)) ->
   c = nc s /\ cell_at s' c = hfs /\ tet_cell_ok s' c hfs /\ tet_cell_ok_b s' c = true /\ tet_cell_inc_b s' c = true /\
   tet_wf s' c hfs (hfs_vertex_set s' hfs).
@@ -449,3 +477,97 @@ Theorem C15_checked_add_cell_accepted_tet_under_the_creation_invariant : forall 
   tet_wf s' c hfs (hfs_vertex_set s' hfs).
 Proof. exact tet_add_cell_checked_ok_cre. Qed.
 Print Assumptions C15_checked_add_cell_accepted_tet_under_the_creation_invariant.
+
+(* ================================================================== 4. C15: the invariant after collapse_edge *)
+
+Theorem C15_collapse_link_condition_checker_sound : forall s heh, link_ok_b s heh = true -> link_ok s heh.
+Proof. exact link_ok_b_sound. Qed.
+Print Assumptions C15_collapse_link_condition_checker_sound.
+
+Theorem C15_collapse_no_parallel_edges_gives_clause_one : forall (Q : nat -> nat -> Prop) s, TH3Base.no_par s ->
+  (forall e, e < ne s -> e_deleted s e = false -> fst (edge_at s e) <> snd (edge_at s e)) -> npar Q s.
+Proof. exact npar_of_no_par. Qed.
+Print Assumptions C15_collapse_no_parallel_edges_gives_clause_one.
+
+(* deferred mode: the deferred-history invariant bu_inv2 of the result *)
+Theorem C15_collapse_result_satisfies_the_deferred_invariant : forall s heh, collapse_ready s heh -> link_ok s heh ->
+  exists s', collapse_edge s heh = Some (s', he_to s heh) /\ collapse_result s heh s' /\ bu_inv2 s' /\ szd s'.
+Proof. exact collapse_edge_deferred_bu_inv2. Qed.
+Print Assumptions C15_collapse_result_satisfies_the_deferred_invariant.
+
+(* ... gc_ready (hypothesis of the C04 theorems), Hinv, and the unified history invariant full_inv *)
+Theorem C15_collapse_result_satisfies_the_history_invariant : forall s heh, collapse_ready s heh -> link_ok s heh -> full_inv s ->
+  exists s', collapse_edge s heh = Some (s', he_to s heh) /\ collapse_result s heh s' /\ bu_inv2 s' /\ szd s' /\ gc_ready s' /\ Hinv s' /\ full_inv s'.
+Proof. exact collapse_edge_deferred_full_inv. Qed.
+Print Assumptions C15_collapse_result_satisfies_the_history_invariant.
+
+Theorem C15_collapse_result_is_gc_ready : forall s heh, collapse_ready s heh -> link_ok s heh -> GcHist.K s ->
+  exists s', collapse_edge s heh = Some (s', he_to s heh) /\ collapse_result s heh s' /\ bu_inv2 s' /\ szd s' /\ gc_ready s' /\ Hinv s' /\ all_inv s'.
+Proof. exact collapse_edge_deferred_inv. Qed.
+Print Assumptions C15_collapse_result_is_gc_ready.
+
+(* stated on the history invariant alone: tet_hist_inv s = full_inv s, deferred mode, all incidences on, tet shape, faces closed loops *)
+Theorem C15_collapse_keeps_the_tet_history_invariant : forall s heh, tet_hist_inv s -> heh / 2 < ne s -> e_deleted s (heh / 2) = false ->
+  he_from s heh <> he_to s heh ->
+  (forall c, In c (rebuilt_cells s heh) -> forall hf, In hf (cell_at s c) -> TH2CollapseLoop.tri_ok (he_to s heh) s hf) ->
+  link_ok s heh ->
+  exists s', collapse_edge s heh = Some (s', he_to s heh) /\ collapse_result s heh s' /\ tet_hist_inv s' /\ gc_ready s' /\ bu_inv2 s'.
+Proof. exact collapse_edge_history_invariant. Qed.
+Print Assumptions C15_collapse_keeps_the_tet_history_invariant.
+
+(* the immediate modes WITHOUT the gc_ready hypothesis of C15_collapse_immediate_slow / _fast *)
+Theorem C15_collapse_immediate_slow_unconditional : forall s heh, deferred s = false -> fast s = false -> let d := enable_deferred true s in
+  collapse_ready d heh -> link_ok d heh -> GcHist.K d ->
+  exists d', collapse_edge d heh = Some (d', he_to d heh) /\ collapse_result d heh d' /\ gc_ready d' /\
+  exists s', collapse_edge s heh = Some (s', if he_from d heh <? he_to d heh then he_to d heh - 1 else he_to d heh) /\
+     nv s' = logical_nv d' /\ edges s' = logical_edges d' /\ faces s' = logical_faces d' /\ cells s' = logical_cells d' /\
+     no_flags s' /\ deferred s' = false /\ fast s' = false /\
+     ((forall v, v_deleted s v = false) -> length (vdel s) = nv s ->
+      rank (vdel d') (he_to d heh) = (if he_from d heh <? he_to d heh then he_to d heh - 1 else he_to d heh)).
+Proof. exact collapse_edge_immediate_slow_inv. Qed.
+Print Assumptions C15_collapse_immediate_slow_unconditional.
+
+Theorem C15_collapse_immediate_fast_unconditional : forall s heh, deferred s = false -> fast s = true -> let d := enable_deferred true s in
+  collapse_ready d heh -> link_ok d heh -> GcHist.K d ->
+  exists d', collapse_edge d heh = Some (d', he_to d heh) /\ collapse_result d heh d' /\ gc_ready d' /\
+  exists s' rv re rf rc,
+     collapse_edge s heh = Some (s', if he_to d heh =? nv s - 1 then he_from d heh else he_to d heh) /\
+     gc_fast_post d' (collect_garbage d') rv re rf rc /\ no_flags s' /\ deferred s' = false /\
+     nv s' = nv (collect_garbage d') /\ edges s' = edges (collect_garbage d') /\ faces s' = faces (collect_garbage d') /\
+     cells s' = cells (collect_garbage d').
+Proof. exact collapse_edge_immediate_fast_inv. Qed.
+Print Assumptions C15_collapse_immediate_fast_unconditional.
+
+(* full statement (refuted): the invariant of the result without the link condition (clause 4 of link_ok) - a halfface ends up in two live
+   cells; and without clause 1 - two parallel edges 2-3 next to ONE tet: the rebuilt tet is not closed (replayed on the library:
+   build/th3col/par.script, model and library agree line by line) *)
+Theorem C15_collapse_without_the_link_condition_refuted :
+  exists s heh s', collapse_ready s heh /\ link_ok_b s heh = false /\ npar_b (img_pair_b s heh) s = true /\
+    forallb (TH3ColReadd.tetc_b s) (rebuilt_cells s heh) = true /\
+    pw_nonrot_b (map (hf_vertices s) (rebuilt_halffaces s heh)) = true /\ full_inv_b s = true /\
+    collapse_edge s heh = Some (s', he_to s heh) /\ ~ bu_inv2 s' /\ ~ gc_ready s'.
+Proof. exact link_condition_needed_refuted. Qed.
+Print Assumptions C15_collapse_without_the_link_condition_refuted.
+
+Theorem C15_collapse_with_parallel_edges_refuted :
+  exists s heh s', collapse_ready s heh /\ full_inv_b s = true /\ nc s = 1 /\ npar_b (img_pair_b s heh) s = false /\
+    forallb (TH3ColReadd.tetc_b s) (rebuilt_cells s heh) = true /\
+    pw_nonrot_b (map (hf_vertices s) (rebuilt_halffaces s heh)) = true /\ free_or_star_b s heh = true /\
+    collapse_edge s heh = Some (s', he_to s heh) /\ ~ bu_inv2 s' /\ ~ gc_ready s'.
+Proof. exact parallel_edges_refuted. Qed.
+Print Assumptions C15_collapse_with_parallel_edges_refuted.
+
+(* non-vacuity: five tets (an image face is FOUND: halfface 6 of a collapsing tet becomes the first halfface of a new cell); the theorem
+   applied; a second collapse on the result of the first *)
+Example C15_collapse_hypotheses_hold_on_five_tets_with_link_condition :
+  collapse_ready_b collapse_ex 0 = true /\ link_ok_b collapse_ex 0 = true /\ full_inv_b collapse_ex = true.
+Proof. exact collapse_ex_link_ok. Qed.
+
+Example C15_collapse_invariant_on_five_tets :
+  exists s', collapse_edge collapse_ex 0 = Some (s', 1) /\ collapse_result collapse_ex 0 s' /\ bu_inv2 s' /\ szd s' /\ gc_ready s' /\ Hinv s' /\ full_inv s'.
+Proof. exact collapse_ex_invariant. Qed.
+
+Example C15_collapse_twice :
+  exists s1 s2, collapse_edge collapse_ex 0 = Some (s1, 1) /\ collapse_edge s1 2 = Some (s2, 2) /\
+    tet_hist_inv s1 /\ tet_hist_inv s2 /\ gc_ready s2 /\ bu_inv2 s2.
+Proof. exact collapse_twice. Qed.
